@@ -70,8 +70,8 @@ func randomScenario(mode string, rng *rand.Rand, k int) scenario {
 	case "gst":
 		sc.Byz = f.byz[rng.Intn(len(f.byz))]
 		sc.Inputs = mkInputs(inputShapes[rng.Intn(len(inputShapes))], n, rng, true)
-		sc.GST = time.Duration(5+rng.Intn(90)) * time.Second
-		sc.PreGSTMaxDelay = time.Duration(1+rng.Intn(40)) * time.Second
+		sc.GST = time.Duration(8+rng.Intn(50)) * time.Second
+		sc.PreGSTMaxDelay = time.Duration(10+rng.Intn(50)) * time.Second
 		sc.Stagger = time.Duration(rng.Intn(5000)+1) * time.Millisecond
 		if len(sc.Byz) > 0 {
 			sc.Adversary = "forger"
